@@ -635,6 +635,40 @@ func vxC11Run(c *vxC11Case, k *vstats.Case) error {
 				}
 				k.Class(fmt.Sprintf("rotation checked over %s hosts", vxBucket(len(tierHosts))))
 			}
+			// the farther tiers rotate as well: as many successive picks as such a tier has (live) hosts enter
+			// it at that many different hosts
+			for far := best + 1; far <= w.maxTier() && best >= 0; far++ {
+				var members []int
+				up := true
+				for i, h := range w.hosts {
+					if w.inFB[i] && w.tier(h) == far {
+						members = append(members, i)
+						up = up && h.IsUp()
+					}
+				}
+				if !up || len(members) < 2 {
+					continue
+				}
+				entries := map[*HostInfo]bool{}
+				for range members {
+					it := w.pol.Pick(w.query(-2))
+					for n := 0; n <= len(w.hosts); n++ {
+						sh := it()
+						if sh == nil || sh.Info() == nil {
+							break
+						}
+						if w.tier(sh.Info()) == far {
+							entries[sh.Info()] = true
+							break
+						}
+					}
+				}
+				if len(entries) != len(members) {
+					verr = fmt.Errorf("rotation: %d successive picks entered tier %d (all of its %d hosts up) at only %d distinct hosts", len(members), far, len(members), len(entries))
+					return
+				}
+				k.Class("rotation of a farther tier checked")
+			}
 		}
 	})
 	if p {
